@@ -819,7 +819,7 @@ def eval_extra(cases, tag="c05x"):
     """content and anim cases: run them and judge them inside Coq; returns (impl results, {index: code}, errors)
     with code -1 = raised, -2 = unlexable output"""
     from concurrent.futures import ThreadPoolExecutor
-    impl = core.run_impl_parallel("impl_c05.py", cases)
+    impl = core.run_impl_parallel("impl_c05.py", cases, chunk=max(40, (len(cases) + 15) // 16))   # few processes for few cases
     codes, errors = {}, []
     terms = {"content": ([], []), "anim": ([], [])}
     for i, (c, r) in enumerate(zip(cases, impl)):
@@ -838,7 +838,7 @@ def eval_extra(cases, tag="c05x"):
         if not ts:
             return [], []
         hdr, typ, expr = (CHEADER, "ccase", "cbad cases") if kind == "content" else (AHEADER, "acase", "abad cases")
-        bad, errs = core.coq_shards(f"{tag}{kind[0]}", hdr, ts, typ, expr, shard=max(6, (len(ts) + 5) // 6))
+        bad, errs = core.coq_shards(f"{tag}{kind[0]}", hdr, ts, typ, expr, shard=max(60, (len(ts) + 7) // 8))
         return [(own[idx], code) for idx, code in bad], errs
     with ThreadPoolExecutor(max_workers=2) as pool:
         for bad, errs in pool.map(judge, ("content", "anim")):
@@ -913,10 +913,19 @@ def shrink_candidates(c):
         plain = [[plain_line(ln, w) for ln in f] for f in fs]
         if plain != fs:
             cands.append({**c, "frames": plain, "flavour": "plain"})
-        elif h > 1:
-            cands.append({**c, "size": [w, h - 1], "frames": [f[:-1] for f in fs]})
-        elif w > 1:
+        if h > 1:   # drop line i of every frame
+            cands += [{**c, "size": [w, h - 1], "frames": [f[:i] + f[i + 1:] for f in fs]} for i in range(h)]
+        if plain == fs and w > 1:
             cands.append({**c, "size": [w - 1, h], "frames": [[ln[:-1] for ln in f] for f in fs]})
+        nspecial = sum(ch in SPECIAL for f in fs for ln in f for ch in ln)
+        for k, f in enumerate(fs):
+            for i, ln in enumerate(f):
+                pl = plain_line(ln, w)
+                if pl != ln:
+                    cands.append({**c, "frames": fs[:k] + [f[:i] + [pl] + f[i + 1:]] + fs[k + 1:]})
+                if nspecial > 1:
+                    cands += [{**c, "frames": fs[:k] + [f[:i] + [ln[:j] + ln[j + 1:]] + f[i + 1:]] + fs[k + 1:]}
+                              for j, ch in enumerate(ln) if ch in SPECIAL]
     return cands
 
 
@@ -933,7 +942,7 @@ def shrink_extra(c, rounds=8):
     for _ in range(rounds):
         if core.over_budget():
             break
-        cands = sorted(shrink_candidates(best), key=case_size)[:24]
+        cands = sorted(shrink_candidates(best), key=case_size)[:32]
         if not cands:
             break
         _, codes, _ = eval_extra(cands, tag="c05xs")
